@@ -147,3 +147,79 @@ def fold_modules(draw, level=(3, 12)):
         parts.append(ctx.replace('{i}', str(i)).replace('{E2}', e2).replace('{E}', e))
         values.append('raises' if v is EXC else type(v).__name__)
     return '\n'.join(parts) + '\n', values
+
+
+# -- runnable contexts: the value of E is captured where it is evaluated and printed as type + repr ---------------------------
+# Each template is a block that appends to R; {E} and {F} are literal-only expressions ({F} is often the same text as {E}, so that
+# a folded result occurs twice and literal hoisting has a reason to bind it to a name).
+RUN_CONTEXTS = [
+    ('module-assign', 'v{i} = {E}\nrec({i}, v{i}, {F})'),
+    ('def-default', 'def g{i}(a={E}, b={F}):\n    return a, b\nrec({i}, *g{i}())'),
+    ('def-kwonly-default', 'def g{i}(*, a={E}, b={F}):\n    return a, b\nrec({i}, *g{i}())'),
+    ('nested-def-default', 'def outer{i}():\n    local_value = 3000\n    other_local = local_value + 1\n    def inner(flag={E}, strict={F}):\n        return flag, strict\n    return inner() + (local_value, other_local)\nrec({i}, *outer{i}())'),
+    ('lambda-default', 'h{i} = lambda a={E}, b={F}: (a, b)\nrec({i}, *h{i}())'),
+    ('nested-lambda-default', 'def outer{i}(seed_value):\n    scaled = seed_value * 2\n    return (lambda a={E}, *, b={F}: (a, b, scaled))()\nrec({i}, *outer{i}(21))'),
+    ('decorator-arg', 'def deco{i}(*values):\n    def wrap(func):\n        func.values = values\n        return func\n    return wrap\n@deco{i}({E}, {F})\ndef h{i}():\n    pass\nrec({i}, *h{i}.values)'),
+    ('nested-decorator-arg', 'def outer{i}():\n    def deco(*values):\n        return lambda func: values\n    @deco({E}, {F})\n    def decorated():\n        pass\n    return decorated\nrec({i}, *outer{i}())'),
+    ('class-attr', 'class K{i}:\n    attr_one = {E}\n    attr_two = {F}\nrec({i}, K{i}.attr_one, K{i}.attr_two)'),
+    ('method-default', 'class K{i}:\n    def method(self, a={E}, b={F}):\n        return a, b\nrec({i}, *K{i}().method())'),
+    ('class-in-def', 'def outer{i}():\n    class Local:\n        attr_one = {E}\n        def method(self, a={F}):\n            return a, self.attr_one\n    return Local().method()\nrec({i}, *outer{i}())'),
+    ('return', 'def r{i}():\n    first_local = {E}\n    return first_local, {F}\nrec({i}, *r{i}())'),
+    ('comprehension', 'c{i} = [({E}, q) for q in range(2) if {F} or True]\nrec({i}, *c{i})'),
+    ('nested-comprehension', 'def outer{i}():\n    return [{E} for q in range(1)] + [{F} for q in range(1)]\nrec({i}, *outer{i}())'),
+    ('generator-closure', 'def outer{i}():\n    total = 5\n    def gen():\n        yield {E}\n        yield {F}\n        yield total\n    return list(gen())\nrec({i}, *outer{i}())'),
+    ('fstring', 's{i} = f"{{E}}|{{F}!r}"\nrec({i}, s{i})'),
+    ('dict-key', 'd{i} = {{E}: 1, 2: {F}}\nrec({i}, *d{i}.items())'),
+    ('call-args', 'def f{i}(*args, **kwargs):\n    return args + tuple(sorted(kwargs.items()))\nrec({i}, *f{i}({E}, k={F}))'),
+    ('global-in-def', 'def w{i}():\n    global z{i}\n    z{i} = {E}\n    return {F}\nrec({i}, w{i}(), z{i})'),
+    ('async-default', 'async def co{i}(a={E}, *, b={F}):\n    return a, b\ntry:\n    co{i}().send(None)\nexcept StopIteration as stop{i}:\n    rec({i}, *stop{i}.value)'),
+    ('conditional', 'rec({i}, 1 if {E} else 2, {F})'),
+    ('subscript', 'rec({i}, list(range(10))[{E}:{F}])'),
+    ('compare-chain', 'rec({i}, 0 <= ({E}) <= 10 ** 30, {F})'),
+    ('annotated', 'n{i}: int = {E}\nrec({i}, n{i}, {F})'),
+]
+RUN_PRELUDE = '''R = []
+def rec(tag, *values):
+    R.append((tag, [(type(v).__name__, repr(v)) for v in values]))
+'''
+
+
+@st.composite
+def bool_arith(draw):
+    """Literal-only expressions that fold to a bool (the constants literal hoisting also handles)."""
+    a, b = draw(st.booleans()), draw(st.booleans())
+    op = draw(st.sampled_from(['&', '|', '^']))
+    t = '%r %s %r' % (a, op, b)
+    if draw(st.booleans()):
+        c = draw(st.booleans())
+        op2 = draw(st.sampled_from(['&', '|', '^']))
+        t = '(%s) %s %r' % (t, op2, c)
+    return t
+
+
+@st.composite
+def runnable_fold_modules(draw, level=(3, 12)):
+    n = draw(st.integers(1, 4))
+    parts = [RUN_PRELUDE]
+    kinds = []
+    shared = draw(st.one_of(bool_arith(), arith(maxdepth=3).map(lambda tv: tv[0])))
+    for i in range(n):
+        kind, tmpl = draw(st.sampled_from(RUN_CONTEXTS))
+        if level < (3, 8) and kind in ('fstring', 'annotated', 'async-default', 'def-kwonly-default', 'nested-lambda-default'):
+            kind, tmpl = RUN_CONTEXTS[0]
+        r = draw(st.integers(0, 9))
+        if r < 3:
+            e = f = shared
+        elif r < 6:
+            e = f = draw(bool_arith())
+        elif r < 8:
+            e = draw(arith(maxdepth=3))[0]
+            f = e
+        else:
+            e = draw(arith(maxdepth=3))[0]
+            f = draw(arith(maxdepth=2))[0]
+        block = tmpl.replace('{i}', str(i)).replace('{{E}', '{(' + e + ')').replace('{E}', '(' + e + ')').replace('{{F}', '{(' + f + ')').replace('{F}', '(' + f + ')')
+        parts.append('try:\n' + '\n'.join('    ' + ln for ln in block.split('\n')) + '\nexcept Exception as error%d:\n    rec(%d, type(error%d))\n' % (i, i, i))
+        kinds.append(kind)
+    parts.append('print(R)\n')
+    return ''.join(parts), kinds
